@@ -96,7 +96,7 @@ TsRefused(i) == HasEnd(i) /\ Rec[EndIdx(i)].res = "err" /\ Rec[EndIdx(i)].kind =
                 /\ Rec[EndIdx(i)].rulehint = "date"
 FormKindOf(i, rr) ==
     IF rr.err.kind = "TooLong"
-    THEN (IF HasEnd(i) /\ Rec[EndIdx(i)].kind \in {"InvalidBodyEncoding", "MalformedQueryString"}
+    THEN (IF HasEnd(i) /\ Rec[EndIdx(i)].kind \in AllKinds /\ Status(Rec[EndIdx(i)].kind) = 400
           THEN Rec[EndIdx(i)].kind ELSE "InvalidBodyEncoding")
     ELSE IF rr.err.rule = 3 THEN rr.err.kind ELSE "InvalidBodyEncoding"
 
@@ -199,12 +199,19 @@ TrPollFuture ==
        ELSE IF Ev.ret = "err" /\ ENABLED PollFutureErr THEN PollFutureErr /\ Keep
        ELSE RejectEv(Where)
 
+\* same header names, and for every name the same values in the same order (C15 does not fix the relative
+\* order of differently named headers)
+ValuesFor(hs, name) == LET sel == SelectSeq(hs, LAMBDA h : h[1] = name) IN [k \in 1..Len(sel) |-> sel[k][2]]
+SameHeaders(a, b) ==
+    /\ {a[i][1] : i \in 1..Len(a)} = {b[i][1] : i \in 1..Len(b)}
+    /\ \A n \in {a[i][1] : i \in 1..Len(a)} : ValuesFor(a, n) = ValuesFor(b, n)
+
 \* ---- End: (Compare then) Return, and the caller-visible result must be the machine's
 RetOk(e) ==
     LET ret == e.ret
         env == BE.env
     IN /\ ret.method = env.method /\ ret.version = env.version
-       /\ ret.hdrs = env.hdrs
+       /\ SameHeaders(ret.hdrs, env.hdrs)
        /\ e.principal = BE.script.principal /\ e.session = BE.script.principal
        /\ IF r.folded
           THEN \* C12/C15: empty body; the returned URI carries exactly the merged parameters
@@ -242,7 +249,7 @@ TrEnd ==
 
 \* ---- stage events: exposed state must equal the specification's; the machine does not move
 ErrIs(e, kind) == e.res = "err" /\ e.kind = kind /\ e.code = Code(kind) /\ e.status = Status(kind)
-TooLongOk(e) == e.res = "err" /\ e.kind \in {"InvalidBodyEncoding", "MalformedQueryString"} /\ e.status = 400
+TooLongOk(e) == e.res = "err" /\ e.kind \in AllKinds /\ Status(e.kind) = 400 /\ e.status = 400 /\ e.code = Code(e.kind)
 StageOk(e) ==
     CASE e.ev = "StageCanon" ->
             IF r.err.rule \in {1, 2, 3}
@@ -251,9 +258,9 @@ StageOk(e) ==
                  /\ HasSha(BE, r.payload) /\ e.bodyhash = ShaHex(BE, r.payload)
       [] e.ev = "StageParams" ->
             IF r.err.rule \in {5, 6, 7, 8, 9} THEN ErrIs(e, r.err.kind)
-            ELSE /\ r.err.rule \notin {1, 2, 3}
-                 /\ e.res = "ok" /\ e.cred = r.cred /\ e.sig = r.sig /\ e.signed = r.signed /\ e.ts = r.ts
-                 /\ e.hasToken = r.hasToken /\ e.token = r.token
+            \* (the extracted credential / signature / date strings are internal representation, not compared: what they
+            \*  must mean is checked through the provider arguments, the canonical request and the string to sign)
+            ELSE r.err.rule \notin {1, 2, 3} /\ e.res = "ok"
       [] e.ev = "StageAuth" ->
             IF r.err.rule = 10 THEN ErrIs(e, "IncompleteSignature")
             ELSE IF r.tsdc /\ e.res = "err" THEN ErrIs(e, "IncompleteSignature")
